@@ -86,7 +86,7 @@ def generate(rng, tier):
     m = Model()
     base = "c"
     feats = set(rng.subset(["modrs", "path", "inline", "cfg_if", "cfg_match", "cfg_attr_path", "decoys", "skipmod",
-                            "innerskip", "ignore", "generated", "twice", "stemdir", "adversarial", "symlinkmod", "symlinkdir", "fallbacksib"], 45))
+                            "innerskip", "ignore", "generated", "twice", "stemdir", "adversarial", "symlinkmod", "symlinkdir", "fallbacksib", "skiptwice"], 45))
     lane = rng.choice(["normal"] * 7 + ["skip_children", "stdin", "fault"])
     if lane == "fault":
         feats.discard("adversarial")  # a decoy at the fallback location would make a missing module resolvable
@@ -301,6 +301,30 @@ def generate(rng, tier):
                       os.path.join(childdir, "fsy", "fsfoo", "fsdeep.rs")):
                 m.status[f] = "E"
             m.feats.add("fallbacksib")
+    # a file that opts out with an inner skip attribute and is named twice, the second time by a declaration with
+    # cfg_attr(path) arms: it stays out, whatever the resolver remembers about having parsed it
+    if "skiptwice" in feats and "stemdir" not in feats and root_status == "E" and lane != "stdin":
+        rd = os.path.dirname(root)
+        var = rng.below(3)
+        skipped = "#![rustfmt::skip]\nfn  hand_aligned( ) { }\n"
+        if var == 0:
+            decl = ('#[cfg_attr(feature = "sk1", path = "sk_unix.rs")]\n#[cfg_attr(feature = "sk2", path = "sk_unix.rs")]\n'
+                    '#[cfg_attr(feature = "sk3", path = "sk_win.rs")]\nmod sk_imp;\n')
+            new = {"sk_unix.rs": ("X", skipped), "sk_win.rs": ("E", body()), "sk_imp.rs": ("E", body())}
+        elif var == 1:
+            decl = ('#[cfg(not(test))]\nmod sk_db;\n#[cfg(test)]\n#[cfg_attr(test, path = "sk_mock.rs")]\nmod sk_db;\n')
+            new = {"sk_db.rs": ("X", skipped), "sk_mock.rs": ("E", body())}
+        else:
+            decl = ('#[path = "sk_tables.rs"]\nmod sk_a;\n#[cfg_attr(feature = "x", path = "sk_tables.rs")]\nmod sk_other;\n')
+            new = {"sk_tables.rs": ("X", skipped), "sk_other.rs": ("E", body())}
+        if not any(os.path.join(rd, f) in m.files for f in new):
+            for f, (st, txt) in new.items():
+                m.files[os.path.join(rd, f)] = txt
+                m.status[os.path.join(rd, f)] = st
+                if st == "X":
+                    m.why[os.path.join(rd, f)] = "inner skip attribute"
+            m.files[root] = insert_decls(m.files[root], decl)
+            m.feats.add("skiptwice")
     # a file reached twice (same spelling / different spelling)
     twice = None
     if "twice" in feats and leafs and root_status == "E":
